@@ -501,7 +501,7 @@ class Compiler:
             if v[0] == "undef":
                 raise Refuse(f"{self.fn}: '{p}' is read before it is assigned")
             return v
-        if k == "un":
+        if k == "un" and not (e[1] == "!" and e[2][0] == "call" and e[2][1] == ("id", "String::compare")):
             op = e[1]
             if op == "*":
                 pv = self.ev(e[2], env, out)
@@ -571,11 +571,15 @@ class Compiler:
                 return v
             v = self.ev(lhs, env, out)
             d = self.ev(rhs, env, out)
-            if v[0] != "nat" or d[0] != "int" or op != "+=":
-                raise Refuse(f"{self.fn}: compound assignment other than `integer += constant`")
-            nv = nat(v[1], v[2] + d[1])
+            if v[0] != "nat" or d[0] not in ("int", "nat") or op != "+=":
+                raise Refuse(f"{self.fn}: compound assignment other than `integer += integer`")
+            nv = nat(v[1], v[2] + d[1]) if d[0] == "int" else nat(f"({rnat(v)} + {paren(rnat(d))})")
             self.store(env, p, nv)
             return nv
+        if k == "un" and e[1] == "!" and e[2][0] == "call" and e[2][1] == ("id", "String::compare"):
+            return self.ev(("bin", "==", e[2], ("num", 0)), env, out)
+        if k == "bin" and e[1] in ("==", "!=") and e[2] == ("num", 0) and e[3] != ("num", 0):
+            return self.ev(("bin", e[1], e[3], e[2]), env, out)
         if k == "bin":
             op = e[1]
             if op in ("==", "!=") and e[2][0] == "call" and e[2][1] == ("id", "String::compare") and e[3] == ("num", 0):
@@ -724,6 +728,11 @@ class Compiler:
             return self.cond(e[2], env, lambda e1: self.cond(e[3], e1, kT, kF), kF)
         if e[0] == "bin" and e[1] == "||":
             return self.cond(e[2], env, kT, lambda e1: self.cond(e[3], e1, kT, kF))
+        if e[0] == "bin" and e[1] in ("==", "!=") and e[2] == ("num", 0) and e[3][0] == "id":
+            e = ("bin", e[1], e[3], e[2])
+        if e[0] == "bin" and e[1] in ("==", "!=") and e[3] == ("num", 0) and e[2][0] == "id" and \
+                env.v.get(e[2][1], ("",))[0] in ("ptr?", "nat"):
+            return self.cond(e[2], env, kT, kF) if e[1] == "!=" else self.cond(e[2], env, kF, kT)
         out = []
         v = self.ev(e, env, out)
         if v[0] == "ptr?":
